@@ -1,1 +1,200 @@
-fn main(){}
+//! bfsweep — C03(a): exhaustive sweep of `__BindgenBitfieldUnit` (the text bindgen pastes into
+//! bindings) against a reference bit-vector model. Output: one JSON object on stdout.
+#![allow(dead_code, clippy::all)]
+
+include!("/repo/bindgen/codegen/bitfield_unit.rs");
+
+pub struct Stats {
+    /// triples whose field spans more than 64 bits from the start of its first byte
+    /// (bit_offset % 8 + width > 64): counted and checked separately
+    pub span_over_64_triples: u64,
+    pub span_over_64_failed: u64,
+    pub span_over_64_example: String,
+    pub triples: u64,
+    pub checks: u64,
+    pub failures: Vec<String>,
+    pub n_fail: u64,
+    pub seed: u64,
+}
+
+impl Stats {
+    fn fail(&mut self, sig: &str, msg: String) {
+        if msg.contains("[span>64]") {
+            self.span_over_64_failed += 1;
+            if self.span_over_64_example.is_empty() {
+                self.span_over_64_example = format!("{sig} | {msg}");
+            }
+            return;
+        }
+        self.n_fail += 1;
+        if self.failures.len() < 12 && !self.failures.iter().any(|f| f.starts_with(sig)) {
+            self.failures.push(format!("{sig} | {msg}"));
+        }
+    }
+}
+
+// ---- reference model: a vector of 8N bits, LSB-first per byte ------------------------------
+fn model_get(storage: &[u8], off: usize, w: usize) -> u64 {
+    let mut v = 0u64;
+    for i in 0..w {
+        let bit = off + i;
+        if storage[bit / 8] >> (bit % 8) & 1 == 1 {
+            v |= 1u64 << i;
+        }
+    }
+    v
+}
+
+fn model_set(storage: &mut [u8], off: usize, w: usize, val: u64) {
+    for i in 0..w {
+        let bit = off + i;
+        let b = (val >> i) & 1;
+        if b == 1 {
+            storage[bit / 8] |= 1 << (bit % 8);
+        } else {
+            storage[bit / 8] &= !(1 << (bit % 8));
+        }
+    }
+}
+
+fn xorshift(x: &mut u64) -> u64 {
+    *x ^= *x << 13;
+    *x ^= *x >> 7;
+    *x ^= *x << 17;
+    *x
+}
+
+fn storages<const N: usize>(seed: u64, salt: u64) -> Vec<[u8; N]> {
+    let mut v = vec![[0u8; N], [0xFFu8; N], [0xA5u8; N]];
+    let mut x = seed ^ salt.wrapping_mul(0x9E3779B97F4A7C15) | 1;
+    for _ in 0..2 {
+        let mut s = [0u8; N];
+        for b in s.iter_mut() {
+            *b = xorshift(&mut x) as u8;
+        }
+        v.push(s);
+    }
+    v
+}
+
+fn values(w: usize, seed: u64, salt: u64) -> Vec<u64> {
+    let mut x = seed ^ salt.wrapping_mul(0xD6E8FEB86659FD93) | 1;
+    let ones = if w == 64 { u64::MAX } else { (1u64 << w) - 1 };
+    vec![0, 1, ones, 1u64 << (w - 1), u64::MAX, 0xAAAA_AAAA_AAAA_AAAA, 0x5555_5555_5555_5555, xorshift(&mut x), xorshift(&mut x)]
+}
+
+fn guarded<T>(f: impl FnOnce() -> T) -> Option<T> {
+    std::panic::catch_unwind(std::panic::AssertUnwindSafe(f)).ok()
+}
+
+fn check_runtime<const N: usize>(st: &mut Stats) {
+    for off in 0..N * 8 {
+        for w in 1..=64usize {
+            if off + w > N * 8 {
+                break;
+            }
+            st.triples += 1;
+            let over = off % 8 + w > 64;
+            if over {
+                st.span_over_64_triples += 1;
+            }
+            let tag = if over { " [span>64]" } else { "" };
+            let salt = ((N as u64) << 32) | ((off as u64) << 8) | w as u64;
+            for s in storages::<N>(st.seed, salt) {
+                let unit = __BindgenBitfieldUnit::new(s);
+                let want = model_get(&s, off, w);
+                let got = guarded(|| unit.get(off, w as u8));
+                st.checks += 1;
+                if got != Some(want) {
+                    st.fail("get", format!("N={N} off={off} w={w} storage={s:02x?}: got {got:x?} want {want:#x}{tag}"));
+                }
+                let got = guarded(|| unsafe { __BindgenBitfieldUnit::raw_get(&unit as *const _, off, w as u8) });
+                st.checks += 1;
+                if got != Some(want) {
+                    st.fail("raw_get", format!("N={N} off={off} w={w} storage={s:02x?}: got {got:x?} want {want:#x}{tag}"));
+                }
+                for v in values(w, st.seed, salt) {
+                    let mut m = s;
+                    model_set(&mut m, off, w, v);
+                    let mut u = __BindgenBitfieldUnit::new(s);
+                    let ok = guarded(|| u.set(off, w as u8, v)).is_some();
+                    st.checks += 1;
+                    if !ok || u.storage != m {
+                        st.fail("set", format!("N={N} off={off} w={w} val={v:#x} storage={s:02x?}: got {:02x?} (panicked: {}) want {m:02x?}{tag}", u.storage, !ok));
+                    }
+                    let mut u = __BindgenBitfieldUnit::new(s);
+                    let ok = guarded(|| unsafe { __BindgenBitfieldUnit::raw_set(&mut u as *mut _, off, w as u8, v) }).is_some();
+                    st.checks += 1;
+                    if !ok || u.storage != m {
+                        st.fail("raw_set", format!("N={N} off={off} w={w} val={v:#x} storage={s:02x?}: got {:02x?} (panicked: {}) want {m:02x?}{tag}", u.storage, !ok));
+                    }
+                }
+            }
+        }
+    }
+}
+
+pub fn check_const<const N: usize, const OFF: usize, const W: u8>(st: &mut Stats) {
+    let w = W as usize;
+    let over = OFF % 8 + w > 64;
+    let tag = if over { " [span>64]" } else { "" };
+    let salt = 0xC0_0000_0000u64 | ((N as u64) << 24) | ((OFF as u64) << 8) | w as u64;
+    for s in storages::<N>(st.seed, salt) {
+        let unit = __BindgenBitfieldUnit::new(s);
+        let want = model_get(&s, OFF, w);
+        let got = guarded(|| unit.get_const::<OFF, W>());
+        st.checks += 1;
+        if got != Some(want) {
+            st.fail("get_const", format!("N={N} off={OFF} w={w} storage={s:02x?}: got {got:x?} want {want:#x}{tag}"));
+        }
+        let got = guarded(|| unsafe { __BindgenBitfieldUnit::<[u8; N]>::raw_get_const::<OFF, W>(&unit as *const _) });
+        st.checks += 1;
+        if got != Some(want) {
+            st.fail("raw_get_const", format!("N={N} off={OFF} w={w} storage={s:02x?}: got {got:x?} want {want:#x}{tag}"));
+        }
+        for v in values(w, st.seed, salt) {
+            let mut m = s;
+            model_set(&mut m, OFF, w, v);
+            let mut u = __BindgenBitfieldUnit::new(s);
+            let ok = guarded(|| u.set_const::<OFF, W>(v)).is_some();
+            st.checks += 1;
+            if !ok || u.storage != m {
+                st.fail("set_const", format!("N={N} off={OFF} w={w} val={v:#x} storage={s:02x?}: got {:02x?} (panicked: {}) want {m:02x?}{tag}", u.storage, !ok));
+            }
+            let mut u = __BindgenBitfieldUnit::new(s);
+            let ok = guarded(|| unsafe { __BindgenBitfieldUnit::<[u8; N]>::raw_set_const::<OFF, W>(&mut u as *mut _, v) }).is_some();
+            st.checks += 1;
+            if !ok || u.storage != m {
+                st.fail("raw_set_const", format!("N={N} off={OFF} w={w} val={v:#x} storage={s:02x?}: got {:02x?} (panicked: {}) want {m:02x?}{tag}", u.storage, !ok));
+            }
+        }
+    }
+}
+
+include!(concat!(env!("OUT_DIR"), "/grid.rs"));
+
+fn main() {
+    let seed: u64 = std::env::args().nth(1).and_then(|s| s.parse().ok()).unwrap_or(0);
+    std::panic::set_hook(Box::new(|_| {}));
+    let mut st = Stats { span_over_64_triples: 0, span_over_64_failed: 0, span_over_64_example: String::new(), triples: 0, checks: 0, failures: vec![], n_fail: 0, seed: seed.wrapping_add(0x1234_5678_9ABC_DEF1) };
+    // a panic inside the unit under test (e.g. an overflowing shift) is a failure of that entry point
+    let r = std::panic::catch_unwind(std::panic::AssertUnwindSafe(|| {
+        macro_rules! all_n { ($($n:literal),*) => { $( check_runtime::<$n>(&mut st); )* } }
+        all_n!(1, 2, 3, 4, 5, 6, 7, 8, 9, 10, 11, 12, 13, 14, 15, 16);
+        run_const_grid(&mut st);
+    }));
+    let panicked = r.is_err();
+    let fails: Vec<String> = st.failures.iter().map(|f| format!("{:?}", f)).collect();
+    println!(
+        "{{\"span_over_64_triples\": {}, \"span_over_64_failed_checks\": {}, \"span_over_64_example\": {:?}, \"triples\": {}, \"checks\": {}, \"const_instantiations\": {}, \"failed_checks\": {}, \"panicked\": {}, \"failures\": [{}]}}",
+        st.span_over_64_triples,
+        st.span_over_64_failed,
+        st.span_over_64_example,
+        st.triples,
+        st.checks,
+        CONST_INSTANTIATIONS,
+        st.n_fail,
+        panicked,
+        fails.join(", ")
+    );
+}
